@@ -12,7 +12,7 @@ def evaluate(ck, data, rules, docg):
         if o["refix_changes"] == 0:
             conv += 1
             continue
-        who = (sorted(o.get("left_fixable", [])) or ["none-left-reporting@" + o["rel"]])[0]
+        who = (sorted(o.get("left_fixable", [])) or ["none-left-reporting:first-editor:%s" % o["refix_first_editor"] if o.get("refix_first_editor") else "none-left-reporting@" + o["rel"]])[0]
         d = o.get("refix_first_diff", {})
         if o.get("refix_cycle"):
             ck.violation("oscillates:%s" % who, "%s: repeated --fix cycles with period %d; rules still reporting after the first run: %r" % (T.tag(o), o["refix_cycle"], o.get("left_fixable", [])[:5]), T.rep(o, oracle="refix", detail=d))
